@@ -258,12 +258,14 @@ def _correspond(ctx, corr, rng, T, ls):
     suite = "read_images_holes"
     n = 0
     nf = 0
+    addr_of_bank = {}
     for key, b, v in vals:
         vk = key + "." + v.name
         locs = [l.address for l in v.locations]
         for kind in ("zero", "ff", "random", "ascii"):
             arg = rng.choice(["g", "d", "i"])
-            a = rng.randrange(64)
+            # the values of one bank are mostly read from the same unit address, whose contents change from run to run
+            a = addr_of_bank.setdefault(key, rng.randrange(64)) if rng.random() < 0.7 else rng.randrange(64)
             u = mu.mk_unit(b, rng, kind=kind, dev=(arg == "d"), addr=a, last=rng.choice([locs[-1], 255, b.LastAddress.locations[0].default]))
             sc = {"unit": u, "call": {"kind": "read", "arg": arg, "a": a, "value": vk}}
             end, trace = one(ls, corr, suite, sc, "read")
@@ -310,13 +312,16 @@ def _correspond(ctx, corr, rng, T, ls):
     nf = 0
     for key, b in mu.all_banks():
         decl_last = b.LastAddress.locations[0].default
+        # most runs of one bank use the SAME unit address: whatever the library remembers per address from an
+        # earlier read (a length, a DTR1 it believes still selected) meets a unit that has changed since
+        a_bank = rng.randrange(64)
         lasts = sorted(set([0, 1, 2, 3, 4, decl_last - 1, decl_last, decl_last + 1, 254, 255] +
                            (list(range(0, decl_last + 2)) if T else [rng.randrange(decl_last + 1) for _ in range(4)])))
         for last in lasts:
             for latch in (True, False):
                 for drift in ((0, 1) if b.has_latch else (0,)):
                     arg = rng.choice(["g", "d", "i"])
-                    a = rng.randrange(64)
+                    a = a_bank if rng.random() < 0.7 else rng.randrange(64)
                     holes = ()
                     r = rng.random()
                     if last > 3 and r < 0.3:
